@@ -23,6 +23,8 @@ def run(ctx):
     ctx.run(L.cnd2_every_wakeup_condition_notifies)
     ctx.run(M.ord13_top_n_limit_zero)
     ctx.run(D.erv4_no_error_discarded)
+    ctx.run(L.flw22_busy_flag_released)
+    ctx.run(S.pan4_constant_result_columns)
     return ctx.finish(
         'Static analysis of compiler MIR: deadlock-freedom clauses (acyclic lock-order graph over '
         'all lock identities, no guard across blocking calls except tabled sites, paired condvar '
